@@ -92,36 +92,89 @@ def triplet_case(args):
         want = [(r, r + m) for r in range(nspl - p) for m in range(p + 1)]
         if ent != want: bad.append("row r is not placed in columns r..r+p")
         names = [c_[0] for c_ in calls]
+        ident = lambda p: p.obj.cells[0]["id"] if (p is not None and p.obj is not None and isinstance(p.obj.cells[0], dict)) else None
+        rid = lambda k: k + 1                                    # id handed out by the k-th call
+        final = rid(names.index("to_sparse"))
         if mono:
             if "tril" not in names or calls[names.index("tril")][1][0] != nspl: bad.append("monotonic dimension: T-spline matrix of size nsplines not requested")
             else:
                 iss = names.index("ssmult"); a = calls[iss][1]
-                if not (a[0].obj.cells[0]["id"] == names.index("to_sparse") + 1 and a[1].obj.cells[0]["id"] == names.index("tril") + 1): bad.append("monotonic dimension: penalty is not (finite differences) x (lower-triangular ones)")
+                if not (ident(a[0]) == final and ident(a[1]) == rid(names.index("tril"))): bad.append("monotonic dimension: penalty factor is not (finite differences) x (lower-triangular ones)")
+                final = rid(iss)
         elif "tril" in names: bad.append("T-spline conversion applied to a non-monotonic dimension")
+        # D'D must be formed from the FINAL difference matrix on both sides: transpose(X) * X
+        if "transpose" not in names: bad.append("no transpose")
+        else:
+            it_ = names.index("transpose")
+            if ident(calls[it_][1][0]) != final: bad.append("the transposed factor is not the (converted) difference matrix: the penalty is not X'X")
+            prods = [k for k, nm in enumerate(names) if nm == "ssmult" and k > it_]
+            if not prods or not (ident(calls[prods[0]][1][0]) == rid(it_) and ident(calls[prods[0]][1][1]) == final): bad.append("the penalty is not transpose(X) * X of the (converted) difference matrix")
         return [(tag + " triplet layout / T-spline conversion", not bad, "; ".join(bad), time.time() - t0)]
     except Exception as ex:
         return [(tag + " execution [%s]" % str(ex)[:80], False, "%s: %s" % (type(ex).__name__, ex), time.time() - t0)]
 
+def design_case(args):
+    """bsplinebasis (splineutil.c): entry (row, col) of the design matrix is B_{col,order}(x[row])"""
+    k, n = args; t0 = time.time(); tag = "bsplinebasis order=%d nknots=%d" % (k, n)
+    try:
+        import c17, c14_exact as X14
+        prog, params = DESIGN
+        it = G.Interp(prog, X14.RatDom()); it.prog_params = params; c17.install(it)
+        F = lambda q: G.FV(Fr(q), Fr(q))
+        t = [Fr(0)]
+        for m in range(1, n): t.append(t[-1] + Fr(1 + (m * m) % 3, 2))
+        xs = [t[0] + (t[-1] - t[0]) * f for f in (Fr(1, 7), Fr(5, 9), Fr(2, 5), Fr(9, 10))] + [t[k + 1], t[1], t[n - 2]]     # interior points and abscissae exactly on knots
+        captured = {}
+        orig = it.hooks["cholmod_l_dense_to_sparse"]
+        def cap(it_, a):
+            d = a[0].obj.cells[0]; captured["m"] = (d["nrow"], d["ncol"], [c.num for c in d["x"].obj.cells]); return orig(it_, a)
+        it.hooks["cholmod_l_dense_to_sparse"] = cap
+        c = it.array("c", [None]); it.hooks["cholmod_l_start"](it, [G.Ptr(c, 0)])
+        it.call("bsplinebasis", [G.Ptr(it.array("knots", [F(v) for v in t]), 0), n, G.Ptr(it.array("x", [F(v) for v in xs]), 0), len(xs), k, G.Ptr(c, 0)])
+        nrow, ncol, x = captured["m"]; bad = []
+        if (nrow, ncol) != (len(xs), n - k - 1): bad.append("design matrix is %dx%d, expected %dx%d" % (nrow, ncol, len(xs), n - k - 1))
+        else:
+            for r in range(nrow):
+                for cc in range(ncol):
+                    want = X14.bspl(t, cc, k, xs[r])
+                    if x[cc * nrow + r] != want: bad.append("entry (%d,%d) at x=%s is %s, B_{%d,%d}(x) = %s" % (r, cc, xs[r], x[cc * nrow + r], cc, k, want))
+        return [(tag + " design matrix == basis functions at the abscissae (incl. abscissae exactly on knots)", not bad, "; ".join(bad[:3]), time.time() - t0)]
+    except Exception as ex:
+        return [(tag + " execution [%s]" % str(ex)[:80], False, "%s: %s" % (type(ex).__name__, ex), time.time() - t0)]
+
+DESIGN = None
 def main():
-    global PROG
+    global PROG, DESIGN
     thorough = vlib.TIER == "thorough"
     rep = vlib.Report("C09")
     prog, params, fns = build(); PROG = (prog, params)
     for f in fns: rep.functions.append(f.info())
+    cs = [units.free_function("src/fitter/splineutil.c", nme) for nme in ("bspline", "bsplinebasis")]
+    dprog = G.Program.compile(units.GRIDEVAL_PRELUDE + "".join(c.text(None) for c in cs), vlib.workdir(), "c09_design")
+    DESIGN = (dprog, {f.name: E.param_names(f.header, f.name) for f in cs})
+    for f in cs: rep.functions.append(f.info())
     KMAX = 3 if not thorough else 4
     t1 = [(k, p, 2 * k + 4) for k in range(0, KMAX + 1) for p in range(0, k + 1)]
     t2 = [(k, p, nspl, mono) for (k, p, nspl) in ((2, 2, 6), (3, 1, 7), (1, 0, 4), (2, 1, 5)) for mono in (0, 1)]
     t0 = time.time()
     with mp.Pool(min(vlib.NCORES, 16)) as pool:
         r1 = pool.map(operator_case, t1, chunksize=1); ta = time.time() - t0; tb0 = time.time()
-        r2 = pool.map(triplet_case, t2, chunksize=1); tb = time.time() - tb0
-    for name, results, backend, wall in (("C09-penalty-operator", r1, "E3-field (fraction-field identity over the GOTO program)", ta), ("C09-penalty-layout", r2, "E3 exact execution of the GOTO program, cholmod hooked", tb)):
+        r2 = pool.map(triplet_case, t2, chunksize=1); tb = time.time() - tb0; tc0 = time.time()
+        r3 = pool.map(design_case, [(k, 2 * k + 4) for k in range(0, KMAX + 1)], chunksize=1); tc = time.time() - tc0
+    for name, results, backend, wall in (("C09-penalty-operator", r1, "E3-field (fraction-field identity over the GOTO program)", ta), ("C09-penalty-layout", r2, "E3 exact execution of the GOTO program, cholmod hooked", tb),
+                                         ("C09-design-matrix", r3, "E3-rational (exact execution of bsplinebasis/bspline from the GOTO program, independent Cox-de Boor oracle)", tc)):
         flat = [o for r in results for o in r]
         rep.add_group(backend, len(flat), sum(1 for o in flat if o[1]), wall, bounded="orders 0..%d, penalty orders 0..order, knots symbolic" % KMAX, name=name)
         for o in flat:
             if not o[1]: rep.add_violation(name, o[0].replace(" ", "_")[:160], o[0] + ": " + o[2], trace=o[2])
         rep.samples += [o[0] for o in flat[:2]]
+    # the per-dimension penalty terms fit() requests (order, penalty order, smoothing, monotonic flag): valid cases of the C13 harness
+    import c13_fit, penalty_matrix
+    c13_fit.add(rep, thorough, only_valid=True, name="C09-fit-penalty-terms")
+    penalty_matrix.add(rep, thorough, monotonic=False, name="C09-penalty-matrix")
     rep.assume("PARTIAL, NECESSARY CONDITIONS ONLY: that fit() returns the minimiser of the penalised objective depends on cholmod/SuiteSparse numerics (GLAM box/slice products, Kronecker extension, sparse Cholesky) and is NOT decided by any obligation here",
+               "decided as well: the ASSEMBLED penalty matrix (add_penalty_term over all dimensions, Kronecker extension included) equals sum_i lambda_i (I x D_i'D_i x I) exactly, D_i the textbook p_i-th derivative-coefficient operator: the quadratic form is the penalty the property names",
+               "also decided: the design matrix bsplinebasis builds is the matrix of basis-function values at the abscissae (exact, incl. abscissae on knots), and fit() requests one penalty term per dimension with that dimension's order, penalty order and smoothing (executed from the extracted fit(), C fitter hooked)",
                "decided: the rows divided_diffs produces are exactly the map from B-spline coefficients to the coefficients of the penaltyOrder-th derivative (so the penalty is the sum of squares the property names), and calc_penalty lays them out as an (nsplines-p) x nsplines band matrix (with the T-spline conversion exactly in the monotonic dimension)",
                "machine arithmetic treated as mathematical; knots strictly increasing symbols")
     rep.trust("tools/gotoexec.py", "sympy.polys.fields", "goto-cc front end")
